@@ -162,7 +162,7 @@ def symbolic_run(qualname, args):
     if F.kind == "classmethod":
         st.env[fparams[0]] = ObjV("type", {"name": F.cls})
         fparams = fparams[1:]
-    fixed = [v for (nm, _s), v in zip(sorts, vals) if "#" not in nm]
+    fixed = [v for (nm, _s), v in zip(sorts, vals) if "#" not in nm and not (nm == "cls" and F.kind == "classmethod")]
     var = [v for (nm, _s), v in zip(sorts, vals) if "#" in nm]
     for pname, v in zip(fparams, fixed):
         st.env[pname] = v
@@ -189,6 +189,8 @@ def symbolic_run(qualname, args):
 
 def real_run(qualname, args):
     fn = policy.resolve(qualname)
+    if list(dsl.CONTRACTS[qualname].params)[:1] == ["cls"]:
+        args = args[1:]
     try:
         res = fn(*args)
         if hasattr(res, "__next__"):
